@@ -9,7 +9,8 @@ EXTRA_BINS = ("dcat",)
 RULE = ("the real KnownHostsCallback (Wrap, PromptAddHosts, trustHosts) with scripted answers on stdin: known-hosts files from a "
         "grammar (plain, multi-host, hashed, @cert-authority / @revoked markers, comments, blank lines, CRLF, missing final newline, "
         "entries with a shared name prefix), 1-5 contacted servers with known / unknown / changed keys, trust-all on and off, answer "
-        "scripts over yes/y/all/a/no/n/details/d/empty/garbage; plus end-to-end dcat runs against an in-process server with an "
+        "scripts over yes/y/all/a/no/n/details/d/empty/garbage; reconnect histories (first round decided, then the same servers "
+        "through the same callback with a second answer script: a refused host stays out unless newly approved); plus end-to-end dcat runs against an in-process server with an "
         "unknown key (answer n: no content, no command reaches the server; answer y: content, host recorded); non-trivial = at "
         "least one unknown or changed key and a file with >= 2 entries; distinct by the whole scenario")
 TRUSTED = ["Coq 8.16.1 kernel + VM", "x/crypto/ssh/knownhosts (matching, hashing, Normalize, Line) - verdicts and entry lines are oracle data",
@@ -58,6 +59,15 @@ def generate(rng, tier):
         cases.append({"file": file, "no_final_nl": rng.random() < 0.2, "crlf": rng.random() < 0.1, "trust_all": rng.random() < 0.15,
                       "answers": "".join(a + "\n" for a in [rng.choice(ANS) for _ in range(rng.choice([0, 1, 2, 3, 5]))]),
                       "contacts": [{"server": HOSTS[j][0], "remote": HOSTS[j][1], "key": j} for j in contacts_idx], "_status": {str(j): s for j, s in status.items()}})
+    # a reconnecting client (dtail and tail-mode dmap retry every 2 s): the first round is decided by one answer, then the
+    # same servers are contacted again through the same callback and a second answer (or none) is typed
+    base = [c for c in cases if any(s != "known" for s in c["_status"].values())]
+    for i in range(10 if tier == "quick" else 200):
+        c = dict(rng.choice(base))
+        c["answers"] = rng.choice(["n", "n", "no", "y", "a"]) + "\n"
+        c["recontact"] = True
+        c["answers2"] = rng.choice(["n\n", "n\n", "no\n", "maybe\nn\n", "y\n", ""])
+        cases.append(c)
     cases.append({"e2e": "n"})
     cases.append({"e2e": "y"})
     return cases
@@ -141,8 +151,26 @@ def judge(cases, obs, tier):
             if got != want:
                 oracle[i] = "server %s (%s key): client %s, the property prescribes %s (trust_all=%s, answers=%r)" % (ct["server"], st, got, want, c["trust_all"], answers)
                 break
+        if i not in oracle and c.get("recontact"):
+            answers2 = c["answers2"].split("\n")[:-1] if c["answers2"] else []
+            d2 = decide(c["trust_all"], answers2)
+            for k, ct in enumerate(c["contacts"]):
+                st = status[str(ct["key"])]
+                got = (o.get("results2") or [""] * len(c["contacts"]))[k].split(":")[0]
+                if st == "known" or c["trust_all"]:
+                    allowed = {"proceed"}
+                elif d == "proceed":
+                    allowed = {"proceed", d2}          # recorded in round one: matches now, or (hashed / marker leftovers) asked again
+                else:
+                    allowed = {d2}                     # refused in round one: only a new answer can admit it
+                if got not in allowed:
+                    oracle[i] = ("reconnect to %s (%s key, %s in the first round): client %s, the property prescribes %s (second answers %r)"
+                                 % (ct["server"], st, d, got, "/".join(sorted(allowed)), answers2))
+                    break
         if i in oracle:
             continue
+        if c.get("recontact"):
+            continue                                   # the file after two rounds is not compared (first-round cases cover it)
         old = scan_lines(before)
         if need and d == "proceed":
             ents = [o["entries"][k] for k in need]
@@ -195,4 +223,5 @@ def sample(c, o):
     if "e2e" in c:
         return {"e2e_answer": c["e2e"], "observed": {k: v for k, v in (o or {}).items() if k != "known_hosts"}}
     return {"contacts": [(ct["server"], c["_status"][str(ct["key"])]) for ct in c["contacts"]], "trust_all": c["trust_all"], "answers": c["answers"],
-            "file_lines": len(c["file"]), "results": (o or {}).get("results")}
+            "file_lines": len(c["file"]), "results": (o or {}).get("results"), "recontact": c.get("recontact", False), "answers2": c.get("answers2"),
+            "results2": (o or {}).get("results2")}
